@@ -1,6 +1,7 @@
 package props
 
 import (
+	"fmt"
 	"go/token"
 	"go/types"
 	"strings"
@@ -271,22 +272,65 @@ func checkLongestArgmax(p *load.Program, r *kit.Report, workF *types.Var) {
 		}
 		return false, false
 	})
+	// the selection is a web of phis (loop header, and the join after the conditional replace):
+	// collect every edge on which a non-phi value enters it
+	type install struct {
+		v    ssa.Value
+		last ssa.Instruction
+		pred *ssa.BasicBlock
+	}
+	var installs []install
+	web := map[*ssa.Phi]bool{}
+	var walk func(ph *ssa.Phi)
+	walk = func(ph *ssa.Phi) {
+		if web[ph] {
+			return
+		}
+		web[ph] = true
+		for i, e := range ph.Edges {
+			if ip, isPhi := e.(*ssa.Phi); isPhi {
+				walk(ip)
+				continue
+			}
+			pred := ph.Block().Preds[i]
+			installs = append(installs, install{e, pred.Instrs[len(pred.Instrs)-1], pred})
+		}
+	}
+	walk(resPhi)
+	// blocks of the loop: those that can reach the comparison and be reached from it
+	fromCmp := kit.Reach(f, kit.After(cmp), kit.Opts{})
+	inLoop := func(b *ssa.BasicBlock) bool {
+		if len(b.Instrs) == 0 || !fromCmp.Has(b.Instrs[0]) {
+			return false
+		}
+		return kit.Reach(f, []kit.Pt{{B: b, I: 0}}, kit.Opts{}).Has(cmp)
+	}
 	viaReplace := 0
+	seeded := false
 	ok := true
 	why := ""
-	for i, e := range resPhi.Edges {
-		pred := resPhi.Block().Preds[i]
-		last := pred.Instrs[len(pred.Instrs)-1]
-		if isElem(e) {
-			dRep, _ := kit.DominatedByEdges(f, last, []kit.Edge{replace}, nil, p.Pos)
-			dNil, _ := kit.DominatedByEdges(f, last, edgesOf(nilGs, true), nil, p.Pos)
-			if dRep {
+	for _, in := range installs {
+		switch {
+		case isElem(in.v):
+			dRep, _ := kit.DominatedByEdges(f, in.last, []kit.Edge{replace}, nil, p.Pos)
+			dNil, _ := kit.DominatedByEdges(f, in.last, edgesOf(nilGs, true), nil, p.Pos)
+			switch {
+			case dRep:
 				viaReplace++
-			} else if !dNil {
+			case dNil:
+			case !inLoop(in.pred):
+				// the selection starts as an element before the loop: must be the first one
+				ia := in.v.(*ssa.UnOp).X.(*ssa.IndexAddr)
+				if k, isC := kit.ConstInt(ia.Index); !isC || k != 0 {
+					ok, why = false, "the selection is seeded with an element other than the first"
+				}
+				seeded = true
+			default:
 				ok, why = false, "the selection is replaced on a path that passes neither the first-element test nor the greater-work edge"
 			}
-		} else if e != ssa.Value(resPhi) && !kit.IsNilConst(e) {
-			ok, why = false, "selection takes a value that is neither the candidate nor the incumbent: "+describe(e)
+		case kit.IsNilConst(in.v):
+		default:
+			ok, why = false, "selection takes a value that is neither the candidate nor the incumbent: "+describe(in.v)
 		}
 	}
 	if viaReplace == 0 {
@@ -294,17 +338,119 @@ func checkLongestArgmax(p *load.Program, r *kit.Report, workF *types.Var) {
 	}
 	// unchanged incumbent on the other edge: the fail edge must not lead to an element install
 	keep := gs[0].FailEdge()
-	for i, e := range resPhi.Edges {
-		pred := resPhi.Block().Preds[i]
-		last := pred.Instrs[len(pred.Instrs)-1]
-		if isElem(e) {
-			if d, _ := kit.DominatedByEdges(f, last, []kit.Edge{keep}, nil, p.Pos); d {
+	for _, in := range installs {
+		if isElem(in.v) && inLoop(in.pred) {
+			if d, _ := kit.DominatedByEdges(f, in.last, []kit.Edge{keep}, nil, p.Pos); d {
 				ok, why = false, "the candidate is installed on the not-greater edge"
 			}
 		}
 	}
+	// the candidates are all elements: bs[i] for i from 0 (1 when seeded with bs[0]) in steps of 1
+	// while i < len(bs)
+	if ok {
+		if w := candidateCoverage(f, cmp, seeded); w != "" {
+			ok, why = false, w
+		}
+	}
 	r.Check(ok, "ARGMAX", "Branches.Longest/cmp", posOf(p, cmp),
 		"candidate replaces the incumbent exactly on the greater(-or-equal)-work edge of Cmp", why)
+}
+
+// candidateCoverage checks the index of the candidate element compared by cmp.
+func candidateCoverage(f *ssa.Function, cmp *ssa.Call, seeded bool) string {
+	var ia *ssa.IndexAddr
+	for _, a := range cmp.Call.Args {
+		kit.DependsOnNoPhi(a, func(x ssa.Value) bool {
+			if u, ok := x.(*ssa.UnOp); ok && u.Op == token.MUL {
+				if i, ok := u.X.(*ssa.IndexAddr); ok {
+					if _, isC := kit.ConstInt(i.Index); !isC {
+						ia = i
+					}
+				}
+			}
+			return false
+		})
+	}
+	if ia == nil {
+		return "the candidate is not an indexed element of the list"
+	}
+	if len(f.Params) == 0 || kit.Strip(ia.X) != ssa.Value(f.Params[0]) {
+		return "the candidates are taken from " + describe(kit.Strip(ia.X)) + ", not from the whole list"
+	}
+	idx := kit.Strip(ia.Index)
+	var ph *ssa.Phi
+	k := int64(0)
+	switch x := idx.(type) {
+	case *ssa.Phi:
+		ph = x
+	case *ssa.BinOp:
+		if c, isC := kit.ConstInt(x.Y); isC && x.Op == token.ADD {
+			ph, _ = x.X.(*ssa.Phi)
+			k = c
+		}
+	}
+	if ph == nil {
+		return "the candidate index is not a simple loop counter"
+	}
+	var init, step ssa.Value
+	for _, e := range ph.Edges {
+		if _, isC := kit.ConstInt(e); isC {
+			if init != nil {
+				return "the candidate index is reset inside the loop"
+			}
+			init = e
+		} else {
+			if step != nil && step != e {
+				return "the candidate index is not a simple loop counter"
+			}
+			step = e
+		}
+	}
+	if init == nil || step == nil {
+		return "the candidate index is not a simple loop counter"
+	}
+	c0, _ := kit.ConstInt(init)
+	sb, isB := step.(*ssa.BinOp)
+	if !isB || sb.Op != token.ADD || sb.X != ssa.Value(ph) {
+		return "the candidate index does not advance by one"
+	}
+	if c, isC := kit.ConstInt(sb.Y); !isC || c != 1 {
+		return "the candidate index does not advance by one"
+	}
+	first := c0 + k
+	limit := int64(0)
+	if seeded {
+		limit = 1
+	}
+	if first < 0 || first > limit {
+		return fmt.Sprintf("the first candidate is element %d: earlier branches are never considered", first)
+	}
+	// the loop continues while idx < len(bs)
+	gs := kit.FindGuards(f, func(c ssa.Value) (bool, bool) {
+		b, ok := c.(*ssa.BinOp)
+		if !ok {
+			return false, false
+		}
+		isLen := func(v ssa.Value) bool {
+			call, ok := v.(*ssa.Call)
+			return ok && kit.CallID(call) == "builtin.len" && kit.Strip(call.Call.Args[0]) == ssa.Value(f.Params[0])
+		}
+		switch {
+		case b.Op == token.LSS && kit.Strip(b.X) == idx && isLen(b.Y):
+			return true, true
+		case b.Op == token.GTR && kit.Strip(b.Y) == idx && isLen(b.X):
+			return true, true
+		case b.Op == token.GEQ && kit.Strip(b.X) == idx && isLen(b.Y):
+			return true, false
+		case b.Op == token.LEQ && kit.Strip(b.Y) == idx && isLen(b.X):
+			return true, false
+		}
+		return false, false
+	})
+	if len(gs) != 1 {
+		return "the loop is not bounded by index < len(list): trailing branches may be skipped"
+	}
+	return ""
 }
 
 func checkReselect(p *load.Program, r *kit.Report, longestF, branchesF *types.Var) {
@@ -641,8 +787,8 @@ func checkAtHeight(p *load.Program, r *kit.Report, headersF *types.Var) {
 	lin := kit.NewLin(f)
 	parentHeightF := p.Field(H, "Branch", "parentHeight")
 	offsetF := p.Field(H, "Branch", "offset")
+	parentF := p.Field(H, "Branch", "parent")
 	recvKey := lin.Key(f.Params[0])
-	want := pAtom(f, 1).Sub(kit.LinAtom("f:" + recvKey + "." + parentHeightF.Name())).Sub(kit.LinAtom("f:" + recvKey + "." + offsetF.Name()))
 	bad := ""
 	n := 0
 	kit.AllInstrs(f, func(in ssa.Instruction) {
@@ -651,29 +797,67 @@ func checkAtHeight(p *load.Program, r *kit.Report, headersF *types.Var) {
 			return
 		}
 		n++
+		// the branch whose headers are indexed: the receiver, or the cursor of a walk up the parents
+		_, base := kit.LoadedField(ia.X)
+		bk := lin.Key(base)
+		want := pAtom(f, 1).Sub(kit.LinAtom("f:" + bk + "." + parentHeightF.Name())).Sub(kit.LinAtom("f:" + bk + "." + offsetF.Name()))
 		got := lin.Of(ia.Index)
 		if !got.Equal(want) {
 			bad = "headers index is " + got.String() + ", want " + want.String()
 		}
 		// guarded by height > parentHeight
 		gs := kit.FindGuards(f, func(c ssa.Value) (bool, bool) {
-			return cmpMatches(lin, c, pAtom(f, 1).Sub(kit.LinAtom("f:"+recvKey+"."+parentHeightF.Name())), 1)
+			return cmpMatches(lin, c, pAtom(f, 1).Sub(kit.LinAtom("f:"+bk+"."+parentHeightF.Name())), 1)
 		})
 		if ok, _ := kit.DominatedByEdges(f, in, edgesOf(gs, true), nil, p.Pos); !ok {
 			bad = "headers are indexed without the guard height > parentHeight"
 		}
-		// recursion on the other edge with the same height
 		rec := kit.CallsTo(f, H+".Branch.AtHeight")
-		if len(rec) != 1 {
-			bad = "expected exactly one delegation to parent.AtHeight"
-		} else {
-			call := rec[0].(*ssa.Call)
-			if !lin.Of(call.Call.Args[1]).Equal(pAtom(f, 1)) {
-				bad = "delegation to the parent changes the height: " + lin.Of(call.Call.Args[1]).String()
+		cursor, isCursor := kit.Strip(base).(*ssa.Phi)
+		switch {
+		case bk == recvKey:
+			// recursion on the other edge with the same height
+			if len(rec) != 1 {
+				bad = "expected exactly one delegation to parent.AtHeight"
+			} else {
+				call := rec[0].(*ssa.Call)
+				if !lin.Of(call.Call.Args[1]).Equal(pAtom(f, 1)) {
+					bad = "delegation to the parent changes the height: " + lin.Of(call.Call.Args[1]).String()
+				}
+				if lin.Key(call.Call.Args[0]) != recvKey+"."+parentF.Name() {
+					bad = "delegation goes to " + lin.Key(call.Call.Args[0]) + ", not to the parent"
+				}
+				if ok, _ := kit.DominatedByEdges(f, call, edgesOf(gs, false), nil, p.Pos); !ok {
+					bad = "parent.AtHeight is not confined to height <= parentHeight"
+				}
 			}
-			if ok, _ := kit.DominatedByEdges(f, call, edgesOf(gs, false), nil, p.Pos); !ok {
-				bad = "parent.AtHeight is not confined to height <= parentHeight"
+		case isCursor:
+			// iterative form: the cursor starts at the receiver and moves to its own parent only on
+			// the edge height <= cursor.parentHeight
+			if len(rec) != 0 {
+				bad = "walk up the parents mixed with recursion"
 			}
+			starts, steps := 0, 0
+			for i, e := range cursor.Edges {
+				k := lin.Key(e)
+				pred := cursor.Block().Preds[i]
+				switch k {
+				case recvKey:
+					starts++
+				case bk + "." + parentF.Name():
+					steps++
+					if ok, _ := kit.DominatedByEdges(f, pred.Instrs[len(pred.Instrs)-1], edgesOf(gs, false), nil, p.Pos); !ok {
+						bad = "the walk moves to the parent although height > parentHeight"
+					}
+				default:
+					bad = "the walk takes a branch that is neither the receiver nor the current branch's parent: " + k
+				}
+			}
+			if starts != 1 || steps == 0 {
+				bad = "the walk does not start at the receiver / never moves to the parent"
+			}
+		default:
+			bad = "headers of " + bk + " are indexed, not the receiver's"
 		}
 	})
 	if n != 1 {
